@@ -68,3 +68,50 @@ def altlink(path):
     name = m.group(1)
     cand = name if os.path.isabs(name) else os.path.join(os.path.dirname(os.path.abspath(path)), name)
     return cand if os.path.exists(cand) else "missing:" + name
+
+
+def dump_values(path):
+    """{die offset: [(at code, form code, parsed)]} where parsed is ('str', bytes) | ('ref', offset) | ('flag', bool)
+    | ('num', int) | ('named', 'DW_X_y') | None when the dumper's rendering is not understood."""
+    p = subprocess.run(["llvm-dwarfdump-14", "--debug-info", "-v", path], stdout=subprocess.PIPE, stderr=subprocess.PIPE, timeout=600)
+    text = p.stdout.decode("utf-8", "replace")
+    out = {}
+    cur = None
+    for line in text.split("\n"):
+        m = re.match(r"0x([0-9a-f]+): ( *)(DW_TAG_\w+) \[(\d+)\]", line)
+        if m:
+            cur = out.setdefault(int(m.group(1), 16), [])
+            continue
+        m = re.match(r"\s+(DW_AT_\w+) \[(DW_FORM_\w+)\]\s*\((.*)\)\s*$", line)
+        if not m or cur is None:
+            if re.match(r"\s+DW_AT_\w+ \[DW_FORM_\w+\]", line) and cur is not None:
+                mm = re.match(r"\s+(DW_AT_\w+) \[(DW_FORM_\w+)\]", line)
+                cur.append((code(mm.group(1), "DW_AT"), code(mm.group(2), "DW_FORM"), None))
+            continue
+        a, f, body = code(m.group(1), "DW_AT"), code(m.group(2), "DW_FORM"), m.group(3).strip()
+        form = m.group(2)
+        val = None
+        if form in ("DW_FORM_string", "DW_FORM_strp", "DW_FORM_line_strp", "DW_FORM_strx1", "DW_FORM_strx"):
+            mm = re.search(r'"(.*)"$', body)
+            if mm and "\\" not in mm.group(1):
+                val = ("str", mm.group(1).encode("utf-8"))
+        elif form.startswith("DW_FORM_ref") and form != "DW_FORM_ref_sig8":
+            mm = re.search(r"=> \{0x([0-9a-f]+)\}", body)
+            if mm:
+                val = ("ref", int(mm.group(1), 16))
+        elif form in ("DW_FORM_flag", "DW_FORM_flag_present"):
+            if body in ("true", "false"):
+                val = ("flag", body == "true")
+            elif re.fullmatch(r"0x[0-9a-f]+", body):
+                val = ("flag", int(body, 16) != 0)
+        elif form in ("DW_FORM_data1", "DW_FORM_data2", "DW_FORM_data4", "DW_FORM_data8", "DW_FORM_udata", "DW_FORM_sdata", "DW_FORM_implicit_const", "DW_FORM_addr"):
+            if re.fullmatch(r"0x[0-9a-f]+", body):
+                val = ("num", int(body, 16))
+            elif re.fullmatch(r"-?\d+", body):
+                val = ("num", int(body))
+            elif re.fullmatch(r"DW_[A-Za-z0-9_]+", body):
+                val = ("named", body)
+            elif body.startswith('"') and body.endswith('"'):
+                val = ("file", body[1:-1])
+        cur.append((a, f, val))
+    return out
